@@ -9,6 +9,6 @@ CONE = ['Base/RExpr.v', 'Base/Bits.v', 'Model/Codec.v', 'Proofs/Geometry.v', 'Pr
 
 
 def run(tier, seed, replay):
-    n = 60 if tier == 'quick' else 1500
+    n = 60 if tier == 'quick' else 600
     gate = common.proof_gate('C02', CONE)
-    return c10.run_foreign('C02', tier, seed, ('reopen',), n, 'Flush-window theorems over the regenerated key helpers (Props/C02.v) + sweep, flush_meta, snapshot, reopen with other parameters, sweep: reads and get_mapping must agree.', plain_n=(90 if tier == 'quick' else 1500), gate=gate)
+    return c10.run_foreign('C02', tier, seed, ('reopen', 'flag'), n, 'Flush-window theorems over the regenerated key helpers (Props/C02.v) + sweep, flush_meta, snapshot, reopen with other parameters, sweep: reads and get_mapping must agree.', plain_n=(90 if tier == 'quick' else 600), gate=gate)
